@@ -151,7 +151,9 @@ static void c07_phase(int n, int mode, bool overlap, bool nbr, int placementStep
 
 // ---- C08 -------------------------------------------------------------------------------
 struct Hier { const char *name; vector<vector<int>> top; vector<int> nestedIn0; int emptyCluster = 0; int rectIdx = -1; };   // rectIdx >= 0: top-level cluster 0 is RectangularCluster(rectIdx), a cluster that IS node rectangle rectIdx (80x80 here) and contains its child nodes   // top-level clusters; optional child cluster inside cluster 0; emptyCluster: 1 an EMPTY child cluster of cluster 0 listed after the nested child, 2 listed before it, 3 an empty top-level cluster
-static void c08_case(int n, int code, int sz, int hier, double pad, bool exempt, bool withSep) {
+// exempt: 0 none, 1 {0,1}, 2 {0,2}, 3 {0,3}, 4 {1,3}, 5 {0,1,3} -- groups whose members are NOT adjacent in the index order have other nodes between them
+static const vector<vector<unsigned>> EXG = {{}, {0, 1}, {0, 2}, {0, 3}, {1, 3}, {0, 1, 3}};
+static void c08_case(int n, int code, int sz, int hier, double pad, int exempt, bool withSep) {
     static const vector<Hier> H = {{"none", {}, {}}, {"{0,1}|{2,3}", {{0, 1}, {2, 3}}, {}}, {"{0,2}|{1}", {{0, 2}, {1}}, {}}, {"{0,1,2}|{3}", {{0, 1, 2}, {3}}, {}}, {"{{0,1},2}|{3}", {{2}, {3}}, {0, 1}},
                                    {"{{0,1},{}}|{2,3}", {{}, {2, 3}}, {0, 1}, 1}, {"{{},{0,1}}|{2,3}", {{}, {2, 3}}, {0, 1}, 2}, {"{0,1}|{}|{2,3}", {{0, 1}, {2, 3}}, {}, 3}, {"{{0,1},{},2}|{3}", {{2}, {3}}, {0, 1}, 1},
                                    {"rect0{1,2}|{3}", {{1, 2}, {3}}, {}, 0, 0}, {"rect3{0,1}|{2}", {{0, 1}, {2}}, {}, 0, 3}, {"rect0{1,2}, node 3 free", {{1, 2}}, {}, 0, 0}, {"rect2{0,1}, node 3 free", {{0, 1}}, {}, 0, 2}};
@@ -170,11 +172,11 @@ static void c08_case(int n, int code, int sz, int hier, double pad, bool exempt,
             if (k == 0 && hr.rectIdx >= 0) mem.push_back(hr.rectIdx);   // the cluster's own rectangle belongs to it
             root->addChildCluster(rc); if (k == 0 && hr.emptyCluster == 3) root->addChildCluster(new RectangularCluster()); groups.push_back(mem); }
     }
-    string desc = mcx::fmt("n=%d start %s sizes=%d clusters=%s padding/margin=%g exempt{0,1}=%d sep(0+15<=1)=%d", n, start.c_str(), sz, hr.name, pad, exempt, withSep);
+    string desc = mcx::fmt("n=%d start %s sizes=%d clusters=%s padding/margin=%g exempt group#%d sep(0+15<=1)=%d", n, start.c_str(), sz, hr.name, pad, exempt, withSep);
     UnsatisfiableConstraintInfos ux, uy; string thrown; ctx.count("transitions"); ctx.count("evaluations"); ctx.announce(desc);
     try {
         ConstrainedFDLayout alg(rs, es, 30);
-        if (exempt) alg.setAvoidNodeOverlaps(true, {{0, 1}}); else alg.setAvoidNodeOverlaps(true);
+        if (exempt) alg.setAvoidNodeOverlaps(true, {EXG[exempt]}); else alg.setAvoidNodeOverlaps(true);
         alg.setConstraints(ccs); if (root) alg.setClusterHierarchy(root); alg.setUnsatisfiableConstraintInfo(&ux, &uy);
         alg.makeFeasible(); alg.run();
     } catch (vpsc::CriticalFailure &f) { thrown = f.what(); ctx.library_abort(f.what(), desc); } catch (...) { thrown = "exception"; ctx.library_abort("exception", desc); }
@@ -182,7 +184,7 @@ static void c08_case(int n, int code, int sz, int hier, double pad, bool exempt,
     string pos; for (int i = 0; i < n; i++) pos += mcx::fmt("[%g,%g %gx%g]", rs[i]->getCentreX(), rs[i]->getCentreY(), rs[i]->width(), rs[i]->height());
     for (int i = 0; i < n; i++) { if (!(rs[i]->getCentreX() == rs[i]->getCentreX()) || std::isinf(rs[i]->getCentreX()) || !(rs[i]->getCentreY() == rs[i]->getCentreY())) ctx.violation("nonfinite", {}, desc, pos); if (fabs(rs[i]->width() - w0[i]) > 1e-9 || fabs(rs[i]->height() - h0[i]) > 1e-9) ctx.violation("size_changed", {}, desc, pos); }
     if (!un) {   // judged even when an internal assertion threw
-        for (int i = 0; i < n; i++) for (int j = i + 1; j < n; j++) { if (exempt && i == 0 && j == 1) continue;
+        for (int i = 0; i < n; i++) for (int j = i + 1; j < n; j++) { if (exempt) { bool gi = false, gj = false; for (unsigned m : EXG[exempt]) { if ((int)m == i) gi = true; if ((int)m == j) gj = true; } if (gi && gj) continue; }
             if (hr.rectIdx >= 0 && (i == hr.rectIdx || j == hr.rectIdx)) { int o = i == hr.rectIdx ? j : i; bool member = false; for (int m : hr.top[0]) if (m == o) member = true; if (member) continue; }   // a member lies inside its cluster's rectangle by design
             double qx = min(rs[i]->getMaxX(), rs[j]->getMaxX()) - max(rs[i]->getMinX(), rs[j]->getMinX()), qy = min(rs[i]->getMaxY(), rs[j]->getMaxY()) - max(rs[i]->getMinY(), rs[j]->getMinY());
             if (qx > 1e-3 && qy > 1e-3) ctx.violation("node_overlap", {}, desc, mcx::fmt("nodes %d,%d overlap %gx%g: ", i, j, qx, qy) + pos); }
@@ -195,7 +197,8 @@ static void c08_case(int n, int code, int sz, int hier, double pad, bool exempt,
     }
     for (auto r : rs) delete r; for (auto cc : ccs) delete cc; for (auto u : ux) delete u; for (auto u : uy) delete u; delete root;
 }
-static void c08_phase(int n, int hier, double pad, bool exempt, bool withSep, int szStep) {
+static void c08_phase(int n, int hier, double pad, int exempt, bool withSep, int szStep) {
+    for (unsigned m : EXG[exempt]) if ((int)m >= n) return;
     ctx.phase(mcx::fmt("C08 n=%d hierarchy#%d pad=%g exempt=%d sep=%d all 3^%d placements x sizes", n, hier, pad, exempt, withSep, 2 * n));
     int tot = 1; for (int i = 0; i < 2 * n; i++) tot *= 3;
     for (int code = 0; code < tot && !ctx.stopped(); code++) for (int sz = 0; sz < (1 << n); sz += szStep) { if (!ctx.next()) continue; ctx.count("states");
@@ -365,6 +368,7 @@ int main(int argc, char **argv) {
     } else {
         c08_phase(3, 0, 0, false, false, 1); c08_phase(3, 2, 0, false, false, 1); c08_phase(3, 0, 0, true, false, 1); c08_phase(3, 0, 0, false, true, 1);
         c08_phase(4, 1, 0, false, false, 15); c08_phase(4, 0, 0, false, false, 15); for (int h = 5; h <= 8; h++) c08_phase(4, h, 0, false, false, 15);
+        for (int ex = 2; ex <= 5; ex++) { c08_phase(4, 0, 0, ex, false, 15); c08_phase(4, 1, 0, ex, false, 15); } c08_phase(3, 0, 0, 2, false, 1);   // exemption groups whose members are not neighbours in the index order
         for (int h = 9; h <= 12; h++) c08_phase(4, h, 0, false, false, 15);   // clusters that are a node rectangle (RectangularCluster(index)), index 0 and others
         c08_history_phase(3, 2, 1); c08_history_phase(3, 3, 3); c08_history_phase(3, 4, 29);
         if (T) { for (int h = 0; h < 13; h++) for (double pad : {0.0, 5.0}) c08_phase(4, h, pad, false, false, 5); c08_phase(4, 1, 5, true, true, 5); c08_phase(4, 4, 0, false, true, 5); c08_phase(3, 2, 5, true, true, 1); }
